@@ -10,11 +10,17 @@
 (***************************************************************************)
 EXTENDS Integers, Sequences, FiniteSets, TLC
 
-CONSTANTS Addrs, Dev, MaxOps
+CONSTANTS Addrs, Dev, MaxOps, Cap     \* Cap: a message carries at most Cap additions and Cap departures (50 in peer.go), the oldest first
 VARIABLES pending, pendingDel, sent, told, present, bad, nops, last
 
 vars == <<pending, pendingDel, sent, told, present, bad, nops, last>>
-Init == pending = {} /\ pendingDel = {} /\ sent = {} /\ told = {} /\ present = {} /\ bad = "-" /\ nops = 0
+\* pending and pendingDel are lists (in the order of the events), without duplicates
+Rng(q) == {q[k] : k \in 1..Len(q)}
+Without(q, x) == SelectSeq(q, LAMBDA y : y # x)
+FirstN(q, n) == SubSeq(q, 1, IF Len(q) < n THEN Len(q) ELSE n)
+RestN(q, n) == SubSeq(q, (IF Len(q) < n THEN Len(q) ELSE n) + 1, Len(q))
+
+Init == pending = <<>> /\ pendingDel = <<>> /\ sent = {} /\ told = {} /\ present = {} /\ bad = "-" /\ nops = 0
         /\ last = [a |-> "Init"]
 
 \* An addition carries flags (encryption preference, upload only, ...) which may differ from one
@@ -23,20 +29,20 @@ Init == pending = {} /\ pendingDel = {} /\ sent = {} /\ told = {} /\ present = {
 Add(x, f) ==
   /\ nops < MaxOps /\ nops' = nops + 1 /\ present' = present \cup {x}
   /\ last' = [a |-> "Add", x |-> x, f |-> f]
-  /\ IF x \in pendingDel THEN
-        /\ pendingDel' = pendingDel \ {x}
+  /\ IF x \in Rng(pendingDel) THEN
+        /\ pendingDel' = Without(pendingDel, x)
         /\ sent' = IF "add_after_del" \in Dev THEN sent ELSE sent \cup {x}
         /\ UNCHANGED pending
-     ELSE IF x \in sent \/ x \in pending THEN UNCHANGED <<pending, pendingDel, sent>>
-     ELSE pending' = pending \cup {x} /\ UNCHANGED <<pendingDel, sent>>
+     ELSE IF x \in sent \/ x \in Rng(pending) THEN UNCHANGED <<pending, pendingDel, sent>>
+     ELSE pending' = Append(pending, x) /\ UNCHANGED <<pendingDel, sent>>
   /\ UNCHANGED <<told, bad>>
 
 Del(x) ==
   /\ nops < MaxOps /\ nops' = nops + 1 /\ present' = present \ {x}
   /\ last' = [a |-> "Del", x |-> x]
-  /\ IF x \in pending THEN pending' = pending \ {x} /\ UNCHANGED <<pendingDel, sent>>
+  /\ IF x \in Rng(pending) THEN pending' = Without(pending, x) /\ UNCHANGED <<pendingDel, sent>>
      ELSE IF x \notin sent THEN UNCHANGED <<pending, pendingDel, sent>>
-     ELSE sent' = sent \ {x} /\ pendingDel' = pendingDel \cup {x} /\ UNCHANGED pending
+     ELSE sent' = sent \ {x} /\ pendingDel' = Append(pendingDel, x) /\ UNCHANGED pending
   /\ UNCHANGED <<told, bad>>
 
 \* sendPex: the pending delta goes out (ok) or the write fails and it is put back
@@ -44,15 +50,17 @@ Send(ok) ==
   /\ nops < MaxOps /\ nops' = nops + 1
   /\ last' = [a |-> "Send", ok |-> ok]
   /\ UNCHANGED present
-  /\ IF pending = {} /\ pendingDel = {} THEN UNCHANGED <<pending, pendingDel, sent, told, bad>>
-     ELSE IF ok THEN
-        /\ sent' = sent \cup pending /\ pending' = {} /\ pendingDel' = {}
-        /\ told' = (told \cup pending) \ pendingDel
-        /\ bad' = IF pending \cap told # {} THEN "double-add"
-                  ELSE IF ~(pendingDel \subseteq told) THEN "drop-unknown" ELSE bad
-     ELSE
+  /\ IF pending = <<>> /\ pendingDel = <<>> THEN UNCHANGED <<pending, pendingDel, sent, told, bad>>
+     ELSE LET ts == Rng(FirstN(pending, Cap))
+              td == Rng(FirstN(pendingDel, Cap)) IN
+       IF ok THEN
+        /\ sent' = sent \cup ts /\ pending' = RestN(pending, Cap) /\ pendingDel' = RestN(pendingDel, Cap)
+        /\ told' = (told \cup ts) \ td
+        /\ bad' = IF ts \cap told # {} THEN "double-add"
+                  ELSE IF ~(td \subseteq told) THEN "drop-unknown" ELSE bad
+       ELSE
         \* computePex already moved the additions to sent: the shipped code leaves them there
-        /\ sent' = IF "send_fail_sent" \in Dev THEN sent \cup pending ELSE sent
+        /\ sent' = IF "send_fail_sent" \in Dev THEN sent \cup ts ELSE sent
         /\ UNCHANGED <<pending, pendingDel, told, bad>>
 
 \* Send(FALSE) is not part of Next: write() can only fail here when the writer has
@@ -63,5 +71,5 @@ Spec == Init /\ [][Next]_vars
 
 NoBadDelta == bad = "-"
 \* when nothing is pending the remote's view is exactly the set of peers present
-Settled == (pending = {} /\ pendingDel = {}) => told = present
+Settled == (pending = <<>> /\ pendingDel = <<>>) => told = present
 =============================================================================
